@@ -426,7 +426,7 @@ class Spec:
 
 def run(ctx):
     global VARIANTS
-    depth = ctx.pick(7, 9)
+    depth = ctx.pick(6, 8)
     VARIANTS = ctx.pick(VARIANTS_QUICK, VARIANTS_THOROUGH)
     ctx.bounds = {
         "timeout_s": TIMEOUT, "epsilon_s": EPS, "depth": "%d actions after the variant choice" % depth,
